@@ -268,6 +268,31 @@ def _s3seeded(case):
         seqs.append(got)
     rnd = Random(110613)
     exp = [rnd.random() <= 0.4 for _ in range(case['n'])]
+    # a bucket that rejects one put now and then: the decision of a recording is taken once and costs one draw, whatever the upload does
+    st = fakes3.new_store()
+    c = _mk_s3(lambda category, size, recording: 0.4)
+    state = {'fail': False}
+
+    def hook(key):
+        if state['fail'] and '/full/' in key:
+            state['fail'] = False
+            raise IOError('bucket rejects this put by design')
+    st.put_hook = hook
+    got = []
+    for i in range(case['n']):
+        r = c.create_new_recording('Op')
+        r.set_data('k', i)
+        state['fail'] = exp[i] and i % 3 == 0
+        try:
+            c.save_recording(r)
+        except IOError:
+            pass
+        state['fail'] = False
+        got.append(any(r.id in k for k in st.objs))
+    bad = [i for i in range(case['n']) if not (exp[i] and i % 3 == 0) and got[i] != exp[i]]
+    if bad:
+        viols.append(viol('s3:seeded:shifted-by-failed-upload', 'after an upload that was rejected once, later storage-level decisions no longer follow the seeded sequence',
+                          [exp[i] for i in bad[:10]], [got[i] for i in bad[:10]]))
     for inst, got in enumerate(seqs):
         if got != exp:
             viols.append(viol('s3:seeded:cassette-%d' % inst, 'storage-level sampling of cassette #%d in the process is not the documented seeded sequence' % inst, exp[:15], got[:15]))
